@@ -256,11 +256,11 @@ func init() {
 	var subs []core.Sub
 	for _, k := range wrx.Kinds {
 		kind := k
-		subs = append(subs, core.Sub{Name: kind, N: core.Const(70, 350), Run: func(c *core.Ctx) { runWriter(c, kind, 1, false) }})
+		subs = append(subs, core.Sub{Name: kind, N: core.Const(70, 1400), Run: func(c *core.Ctx) { runWriter(c, kind, 1, false) }})
 	}
 	for _, k := range wrx.Kinds {
 		kind := k
-		subs = append(subs, core.Sub{Name: kind + "-workers", N: core.Const(42, 210), Race: true, NRace: core.Const(14, 70),
+		subs = append(subs, core.Sub{Name: kind + "-workers", N: core.Const(42, 840), Race: true, NRace: core.Const(14, 140),
 			Run: func(c *core.Ctx) { runWriter(c, kind, []int{2, 3, 8}[c.Idx%3], true) }})
 	}
 	core.Register(&core.Property{
